@@ -134,7 +134,10 @@ impl Ctx {
             json_str(key)
         );
         let _ = std::fs::create_dir_all(&self.replay_dir);
-        let _ = std::fs::write(&file, body);
+        if self.rep.violations.len() < 40 {
+            // replay files only for the witnesses that are reported (the rest are counted)
+            let _ = std::fs::write(&file, body);
+        }
         let detail = format!("\"case\":{},\"observed\":{},\"expected\":{}", json_str(key), json_str(observed), json_str(expected));
         self.rep.violation(&sig, what, &file, &detail);
     }
@@ -215,6 +218,23 @@ fn main() {
                 }
             }
         }
+    }
+    // bounded-exhaustive: every significand below `small_w` x every decimal exponent in and just beyond the
+    // table range x exact/truncated x both formats (sharded by exponent)
+    let small_w = args.u64("small-w", 0);
+    if small_w > 0 {
+        for (fmt, lo, hi) in [(F64, -350i32, 315i32), (F32, -70, 45)] {
+            let mut q = lo + shard.0 as i32;
+            while q <= hi {
+                for w in 0..small_w {
+                    for t in [false, true] {
+                        ctx.one(fmt, w, q, t, "SMALL_W_EXHAUSTIVE");
+                    }
+                }
+                q += shard.1 as i32;
+            }
+        }
+        ctx.rep.extra.insert("small_w_exhaustive_below".into(), format!("{}", small_w));
     }
     ctx.rep.extra.insert("corpus_entries_f64".into(), format!("{}", c64.len()));
     ctx.rep.extra.insert("corpus_entries_f32".into(), format!("{}", c32.len()));
